@@ -16,7 +16,7 @@ PROPERTY = {
     'bounds': {'shapes': 'all mapping documents with <=4 nodes (quick) / <=6 (thorough), depth <=3, lists <=2, mappings <=2 keys',
                'sites': '1 site at any node (quick) / 2 sites (thorough)',
                'flags per site': 'none | priority in {-1,0,1} | delete in {T,F} | allow_new=True | safe in {T,F}; literal tags !force !weak !del !merge !new !unsafe !metadata{{..}}'},
-    'outside': ['arbitrary unicode scalars, anchors/aliases, block-style collections other than the 5 listed documents (c01_block), multi-line block scalars', 'value-less !del (removes the key by design)',
+    'outside': ['arbitrary unicode scalars, anchors/aliases, block-style collections other than the 7 listed documents (c01_block), multi-line block scalars', 'value-less !del (removes the key by design)',
                 'keys equal to attribute names of the node classes', 'allow_new=False in a first document (error by design)'],
     'per_split_timeout': {'quick': 600, 'thorough': 1800},
     'wall_budget': {'quick': 1500, 'thorough': 7000},
@@ -168,6 +168,9 @@ BLOCKS = [
     'm: {T0}\n  x:\n  y:\n  w: {T1}\n    p:\n    q:\nn: {T2}\n  -\n  -\n',
     'l: {T0}\n  - {T1}\n    -\n    -\n  - {T2}\n    - 1\n    - 1\n  -\n',
     'e: {T0} {{a: , b: , c: {T1} [1, 1]}}\nf: {T2}\n  - ~\n  - null\n  -\n',
+    # keys whose TEXT spells the path of another node of the document (after / before that node), float key vs nested int keys
+    'a: {T0}\n  b: 1\n  c: {T1} [5, 6]\n"a.b": 2\n"a.c[1]": {T2} 3\n',
+    '"m.x": {T0} {{q: 1}}\n1.5: y\nm: {T1}\n  x: {T2} [7]\n1:\n  5: z\n',
 ]
 
 
@@ -243,7 +246,7 @@ HARNESSES = {
                          lambda tier: [{'doc': i, 'pos': k, '_pre': 'pos == %d and (%s)' % (k, ('not np_ and not sp' if (i + k) % 2 == 0 else 'not pp and not dp') if tier == 'quick' else 'True')}
                                        for i in range(len(BLOCKS)) for k in range(3)],
                          pre=f'{ONE_FLAG} and (t == 0 or not (pp or dp or np_ or sp)) and (t2 == 0 or not dp2) and pos < pos2',
-                         doc='5 block-style documents with empty (implicit null) entries and repeated values; 1..2 tag sites on collection nodes',
+                         doc='7 block-style documents: empty (implicit null) entries, repeated values, keys whose text spells the path of another node; 1..2 symbolic tag sites',
                          witnesses=('built',)),
     'c01_two_sites': Harness('c01_two_sites', c01_two_sites,
                              [('si', 'int', 0, 3), ('pos', 'int', 0, 5), ('pos2', 'int', 0, 5), ('t', 'int', 0, len(LITERAL) - 1),
